@@ -18,6 +18,8 @@ equivalent one in which those choices are undone:
       if/elif chain on e == k1, ...;
   N9  `enumerate(<literal>)` becomes the literal tuple of (i, element) pairs, `<literal>[<constant>]` the element; a `continue` in
       the body of a literal loop is first turned into the equivalent if/else (tail-position transform), so the loop can be unrolled.
+  N10 a local bound once to an attribute / name and used only as the function of calls (psi = self.psi ... psi(T, a)) is replaced by what it
+      names (bound-method alias).
   N1 also covers closures (a function defined inside the analysed function and called there), static methods reached through
   self / the class name, and helpers with *args / **kwargs parameters (bound to the tuple / dict display of the extra arguments;
   a `*display` / `**display` in a call is spliced back into plain arguments).
@@ -665,6 +667,14 @@ class Normalizer:
                         targets=[ast.Name(id=tmp, ctx=ast.Store())],
                         value=v if v is not None else ast.Constant(value=None))])
                     _relocate(body, st)
+                    # a helper that ends in `return <name / attribute>` on its only exit: use that expression, no temporary
+                    n_tmp = sum(1 for b_ in body for x_ in ast.walk(b_) if isinstance(x_, ast.Name) and x_.id == tmp)
+                    if body and n_tmp == 1 and isinstance(body[-1], ast.Assign) and len(body[-1].targets) == 1 \
+                            and isinstance(body[-1].targets[0], ast.Name) and body[-1].targets[0].id == tmp and is_stable(body[-1].value) \
+                            and not isinstance(body[-1].value, ast.Constant):
+                        val_ = body[-1].value
+                        pre.extend(norm.proc_block(body[:-1], norm._sub_ctx(ctx, callee), depth - 1))
+                        return ast.copy_location(clone(val_), node)
                     pre.extend(norm.proc_block(body, norm._sub_ctx(ctx, callee), depth - 1))
                     return ast.copy_location(ast.Name(id=tmp, ctx=ast.Load()), node)
                 except NotInlinable:
@@ -936,6 +946,44 @@ class Normalizer:
                             and isinstance(lit, ast.Tuple) and all(is_stable(x) for x in lit.elts):
                         changed[0] = True
                         return ast.copy_location(clone(lit.elts[node.slice.value]), node)
+                return node
+        T().visit(fn)
+        return changed[0]
+
+    # ------------------------------------------------------------------ N10
+    def call_aliases(self, fn):
+        stores = {}
+        for n in ast.walk(fn):
+            if isinstance(n, ast.Name) and isinstance(n.ctx, (ast.Store, ast.Del)):
+                stores[n.id] = stores.get(n.id, 0) + 1
+        params = {a.arg for a in ast.walk(fn) if isinstance(a, ast.arg)}
+        cand = {}
+        for n in walk_no_nested(fn):
+            if isinstance(n, ast.Assign) and len(n.targets) == 1 and isinstance(n.targets[0], ast.Name) and stores.get(n.targets[0].id) == 1 \
+                    and n.targets[0].id not in params and isinstance(n.value, ast.Attribute) and is_stable(n.value):
+                cand[n.targets[0].id] = n
+        if not cand:
+            return False
+        # every load of the alias must be the func of a call
+        for n in ast.walk(fn):
+            for c in ast.iter_child_nodes(n):
+                c._p = n
+        for n in ast.walk(fn):
+            if isinstance(n, ast.Name) and n.id in cand and isinstance(n.ctx, ast.Load):
+                p_ = getattr(n, '_p', None)
+                if not (isinstance(p_, ast.Call) and p_.func is n):
+                    cand.pop(n.id, None)
+        # aliases of builtins-like helpers (isa = isinstance, getfield = getattr) are Names, not attributes: left alone
+        if not cand:
+            return False
+        changed = [False]
+
+        class T(ast.NodeTransformer):
+            def visit_Call(self, node):
+                self.generic_visit(node)
+                if isinstance(node.func, ast.Name) and node.func.id in cand:
+                    node.func = clone(cand[node.func.id].value)
+                    changed[0] = True
                 return node
         T().visit(fn)
         return changed[0]
@@ -1223,11 +1271,14 @@ class Normalizer:
         names = set()
         maybe_call = False
         has_get = False
+        has_alias = False
         fnames = f.module.functions
         for n in ast.walk(node):
             kinds.add(type(n))
             if isinstance(n, ast.Attribute) and n.attr == 'get' and isinstance(n.value, ast.Name):
                 has_get = True
+            if isinstance(n, ast.Assign) and len(n.targets) == 1 and isinstance(n.targets[0], ast.Name) and isinstance(n.value, ast.Attribute):
+                has_alias = True
             if isinstance(n, ast.Name):
                 names.add(n.id)
             elif isinstance(n, ast.Call):
@@ -1251,7 +1302,7 @@ class Normalizer:
             'append': ast.For in kinds and ast.List in kinds,
             'ifexp': ast.IfExp in kinds,
         }
-        if not maybe_call and not any(want.values()) and not has_get:
+        if not maybe_call and not any(want.values()) and not has_get and not has_alias:
             return node
         fn = clone(node)
         params = [x.arg for x in fn.args.posonlyargs + fn.args.args]
@@ -1295,6 +1346,8 @@ class Normalizer:
             ch |= self.append_loops(fn)
         if want['ifexp']:
             ch |= self.ifexp_statements(fn)
+        if has_alias or ch:
+            ch |= self.call_aliases(fn)
         if ast.Dict in kinds or ch or has_get:
             ch |= self.table_lookups(fn)
         if closures:
